@@ -66,11 +66,28 @@ def run(ctx):
     ok = "msg.kwargs.get('exit_status', self._exit_status)" in t2 and "msg.kwargs.get('reason', self._reason)" in t2 and ("msg.run" in t2)
     ctx.ob("C42.D3-span-ended-by-key", cname(ct, None, "message close: the message's own status / reason / run key"), ok, "" if ok else "another run's status / key is used", where=where(ct, ct.node))
     h = rm.handler("close_run")
-    seq = list(A.walk_stmts(h.node.body))
-    i_c = next((i for i, s in enumerate(seq) if A.find_calls(s, "current_run.close_run") and not isinstance(s, (ast.Try, ast.If))), None)
-    i_t = next((i for i, s in enumerate(seq) if A.find_calls(s, "self._close_run_trace")), None)
-    ok = i_c is not None and i_t is not None and i_c < i_t and A.norm(seq[i_t]) == "self._close_run_trace(msg)"
-    ctx.ob("C42.D3-span-ended-by-key", cname(h, None, "close_run handler ends the span of the closed run"), ok, "" if ok else "span not ended after close_run", where=where(h, h.node))
+    closes = [s for s in A.walk_stmts(h.node.body) if not isinstance(s, (ast.Try, ast.If, ast.With, ast.For, ast.While)) and A.find_calls(s, "current_run.close_run")]
+    traces = [s for s in A.walk_stmts(h.node.body) if not isinstance(s, (ast.Try, ast.If, ast.With, ast.For, ast.While)) and A.find_calls(s, "self._close_run_trace")]
+    ok = len(closes) == 1 and len(traces) == 1 and A.norm(traces[0]) == "self._close_run_trace(msg)"
+    ctx.ob("C42.D3-span-ended-by-key", cname(h, None, "close_run handler ends the span of the closed run, with the message"), ok,
+           "" if ok else "close / span-end statements not found once each", where=where(h, h.node))
+    if ok:
+        g = q.cfg(h, rm.policy())
+        c_nodes, t_nodes = set(g.nodes_of(closes[0])), set(g.nodes_of(traces[0]))
+        # (i) the span is ended only when the bundler really closed the run: not reachable through an exceptional exit of close_run
+        exc_succ = [v for u in c_nodes for v, label in g.succ[u] if isinstance(label, tuple) and label[0] in ("exc", "reraise")]
+        seen = g.reachable(exc_succ) if exc_succ else {}
+        bad = [t for t in t_nodes if t in seen]
+        ctx.ob("C42.D3-span-ended-by-key", cname(h, None, "the span is ended only after close_run succeeded"), not bad,
+               "" if not bad else "the span is ended with the message's status although close_run failed and the run is still open: the engine's cleanup "
+               "then closes the run with another status and finds no span to end", nontrivial=True,
+               witness=g.path_to(seen, bad[0])[-6:] if bad else None, where=where(h, traces[0]))
+        # (ii) and it IS ended on the normal path
+        norm_succ = [v for u in c_nodes for v, label in g.succ[u] if not isinstance(label, tuple)]
+        seen_n = g.reachable(norm_succ, avoid=lambda n: n.id in t_nodes)
+        esc = [p for p, label in g.pred[g.exit] if p in seen_n]
+        ctx.ob("C42.D3-span-ended-by-key", cname(h, None, "every normal return after close_run passes the span end"), not esc,
+               "" if not esc else "span not ended after close_run", nontrivial=True, where=where(h, closes[0]))
     # cleanup loop in _run
     loops = [s for s in A.walk_stmts(rm.outer_try.finalbody) if isinstance(s, ast.For) and A.find_calls(s, "close_run")]
     ok = False
@@ -106,6 +123,8 @@ CLAIM = {
 
 RE = "run_engine.py"
 MUTANTS = [
+    ("span ended in a finally around close_run (seed C42-a)", [("run_engine.py", "        ret = await current_run.close_run(msg)\n        del self._run_bundlers[run_key]\n        self._close_run_trace(msg)", "        try:\n            ret = await current_run.close_run(msg)\n        finally:\n            self._close_run_trace(msg)\n        del self._run_bundlers[run_key]")], "C42.D3"),
+    ("span ended before the run is closed", [("run_engine.py", "        ret = await current_run.close_run(msg)\n        del self._run_bundlers[run_key]\n        self._close_run_trace(msg)", "        self._close_run_trace(msg)\n        ret = await current_run.close_run(msg)\n        del self._run_bundlers[run_key]")], "C42.D3"),
     ("span stored under a constant key", [(RE, "        self._run_tracing_spans[run_key] = _span", "        self._run_tracing_spans[None] = _span")], "C42.D1"),
     ("span started before the duplicate check",
      [(RE, "        # one span per registered run, keyed like the run itself\n        _span = tracer.start_span(f\"{_SPAN_NAME_PREFIX} run\")\n        _set_span_msg_attributes(_span, msg)\n        self._run_tracing_spans[run_key] = _span\n", ""),
